@@ -120,9 +120,10 @@ class _OsProxy:
 class FaultFS:
     """mode: 'record' | 'crash' | 'fail'; at: operation index; cut: bytes of a torn write (crash only)."""
 
-    def __init__(self, mode="record", at=None, cut=None):
+    def __init__(self, mode="record", at=None, cut=None, at_name=None):
         self.mode = mode
         self.at = at
+        self.at_name = at_name  # alternatively: inject at the first operation of this kind (e.g. "fsync")
         self.cut = cut
         self.ops = []
         self.fds = {}
@@ -151,6 +152,8 @@ class FaultFS:
             self.on_point(op)
         idx = len(self.ops)
         self.ops.append(op)
+        if self.at_name is not None and self.at is None and op[0] == self.at_name and not self.injected:
+            self.at = idx
         if self.at is not None and idx == self.at and not self.injected:
             self.injected = True
             if self.mode == "fail":
